@@ -39,8 +39,10 @@ Section Quadrature.
   Context {T : Type} (rs : RSpace F T).
 
   (* Vect3 v(0,0,0); for j<3: v.multadd(barycentric_coordinates[j],triangle[j]) *)
+  Definition bary_point (l0 l1 l2 : F) (t0 t1 t2 : V) : V :=
+    vmultadd o (vmultadd o (vmultadd o (vzero o) l0 t0) l1 t1) l2 t2.
   Definition quad_node (p : qpoint) (t0 t1 t2 : V) : V :=
-    vmultadd o (vmultadd o (vmultadd o (vzero o) (fQ o (qp_l0 p)) t0) (fQ o (qp_l1 p)) t1) (fQ o (qp_l2 p)) t2.
+    bary_point (fQ o (qp_l0 p)) (fQ o (qp_l1 p)) (fQ o (qp_l2 p)) t0 t1 t2.
 
   (* result = 0.0; for i<nbPts[order]: result += rules[order][i].weight*function(v);
      area2 = crossprod(triangle[1]-triangle[0],triangle[2]-triangle[0]).norm();  return result*area2 *)
